@@ -306,9 +306,11 @@ def sweep_lists(ctx, pr, cases, exact, cov, dist):
             if bad:
                 joining = mr.endswith("!ub") or joinable_neighbours(recs)
                 ctx.offender("range-move%s:%s" % (":joined-while-moving" if joining else "", fn),
-                             "%s until NULL on this list: %s (moving a bracket group into the temporary list joined records; "
-                             "the books are kept with the temporary list's record count)" %
-                             (fn, "the sanitizer reports " + crashed.group(1) if crashed else ir[-40:]),
+                             "%s until NULL on this list: %s%s" %
+                             (fn, "the sanitizer reports " + crashed.group(1) if crashed else
+                              "the list is not empty at the NULL / the pieces are wrong: " + ir[-40:],
+                              " (moving a bracket group into the temporary list joined records; the books are kept with the "
+                              "temporary list's record count)" if joining else ""),
                              dict(case, function=fn, answer=ir[-300:]))
         if isx:
             dist["exact-mode-lists"] += 1
